@@ -164,7 +164,7 @@ Proof.
       eapply (NoDup_app_disj _ _ _ Hnd); eauto. apply in_or_app. right. apply nth_In. assumption.
     + exfalso. inversion H2; subst. apply Nat.ltb_lt in Ej. apply nlookup_in in H1.
       eapply (NoDup_app_disj _ _ _ Hnd); eauto. apply in_or_app. right. apply nth_In. assumption.
-    + f_equal. eapply nlookup_inj; eauto.
+    + f_equal. exact (nlookup_inj (free_names st) i j s Hndf H1 H2).
   - exfalso. simpl in H2. destruct (nlookup j (exist_names st)); [|discriminate].
     simpl in H2. change exist_prefix with "?" in H2. inversion H2; subst.
     apply asg_in_alloc_bound in H1.
@@ -179,7 +179,7 @@ Proof.
     destruct (nlookup i (exist_names st)) eqn:Ei; [|discriminate].
     destruct (nlookup j (exist_names st)) eqn:Ej; [|discriminate].
     simpl in *. change exist_prefix with "?" in *. inversion H1; inversion H2; subst. inversion H3; subst.
-    f_equal. eapply nlookup_inj; eauto.
+    f_equal. exact (nlookup_inj (exist_names st) i j s0 Hnde Ei Ej).
 Qed.
 
 (* ------------------------------------------------------------ tags *)
@@ -220,7 +220,7 @@ Definition P (t : ty) : Prop :=
   pr t row st = (toks, st') -> Good st toks st'.
 
 Lemma Good_refl_tagless : forall st toks, Inv st -> tagless toks -> Good st toks st.
-Proof. intros st toks H Ht. repeat split; auto; try apply H. intros v s Hin. rewrite Ht in Hin. contradiction. Qed.
+Proof. intros st toks H Ht. split; [exact H|]. split; [reflexivity|]. split; [auto|]. intros v s Hin. rewrite Ht in Hin. contradiction. Qed.
 
 Definition GoodL (st : pst) (parts : list (list token)) (st' : pst) : Prop :=
   Inv st' /\ bound_names st' = bound_names st /\
@@ -232,13 +232,13 @@ Lemma thread_good : forall l st parts st',
   thread (fun x => pr x true) l st = (parts, st') -> GoodL st parts st'.
 Proof.
   induction l as [|x l IH]; intros st parts st' HF Hm Hn HI H; simpl in H.
-  - inversion H; subst. repeat split; auto; try apply HI. intros p v s [].
-  - inversion HF; subst. simpl in Hm, Hn. apply andb_prop in Hm as [Hm1 Hm2]. apply andb_prop in Hn as [Hn1 Hn2].
+  - inversion H; subst. split; [exact HI|]. split; [reflexivity|]. split; [auto|]. intros p v s [].
+  - inversion HF as [|? ? HPx HFl]; subst. simpl in Hm, Hn. apply andb_prop in Hm as [Hm1 Hm2]. apply andb_prop in Hn as [Hn1 Hn2].
     destruct (pr x true st) as [a st1] eqn:Ea. destruct (thread (fun x => pr x true) l st1) as [b st2] eqn:Eb.
     inversion H; subst.
-    destruct (H1 true st a st1 Hm1 Hn1 HI Ea) as (I1 & B1 & M1 & T1).
-    destruct (IH st1 b st' H2 Hm2 Hn2 I1 Eb) as (I2 & B2 & M2 & T2).
-    repeat split; auto; try congruence.
+    destruct (HPx true st a st1 Hm1 Hn1 HI Ea) as (I1 & B1 & M1 & T1).
+    destruct (IH st1 b st' HFl Hm2 Hn2 I1 Eb) as (I2 & B2 & M2 & T2).
+    split; [exact I2|]. split; [congruence|]. split; [intros v s Hv; auto|].
     intros p v s [<-|Hp] Hin; [apply M2; apply T1; assumption | eapply T2; eauto].
 Qed.
 
@@ -247,14 +247,14 @@ Lemma thread_in_good : forall l fl st parts st',
   thread_in (fun x => pr x true) l fl st = (parts, st') -> GoodL st parts st'.
 Proof.
   induction l as [|x l IH]; intros fl st parts st' HF Hm Hn HI H; simpl in H.
-  - inversion H; subst. repeat split; auto; try apply HI. intros p v s [].
-  - inversion HF; subst. simpl in Hm, Hn. apply andb_prop in Hm as [Hm1 Hm2]. apply andb_prop in Hn as [Hn1 Hn2].
+  - inversion H; subst. split; [exact HI|]. split; [reflexivity|]. split; [auto|]. intros p v s [].
+  - inversion HF as [|? ? HPx HFl]; subst. simpl in Hm, Hn. apply andb_prop in Hm as [Hm1 Hm2]. apply andb_prop in Hn as [Hn1 Hn2].
     destruct (pr x true st) as [a st1] eqn:Ea.
     destruct (thread_in (fun x => pr x true) l (tl fl) st1) as [b st2] eqn:Eb.
     inversion H; subst.
-    destruct (H1 true st a st1 Hm1 Hn1 HI Ea) as (I1 & B1 & M1 & T1).
-    destruct (IH (tl fl) st1 b st' H2 Hm2 Hn2 I1 Eb) as (I2 & B2 & M2 & T2).
-    repeat split; auto; try congruence.
+    destruct (HPx true st a st1 Hm1 Hn1 HI Ea) as (I1 & B1 & M1 & T1).
+    destruct (IH (tl fl) st1 b st' HFl Hm2 Hn2 I1 Eb) as (I2 & B2 & M2 & T2).
+    split; [exact I2|]. split; [congruence|]. split; [intros v s Hv; auto|].
     intros p v s [<-|Hp] Hin; [| eapply T2; eauto].
     rewrite tags_app, tags_flag, app_nil_r in Hin. apply M2; apply T1; assumption.
 Qed.
@@ -263,7 +263,7 @@ Lemma GoodL_join : forall st parts st' sep pre post,
   GoodL st parts st' -> tagless sep -> tagless pre -> tagless post ->
   Good st (pre ++ join sep parts ++ post) st'.
 Proof.
-  intros st parts st' sep pre post (I & B & M & T) Hs Hpre Hpost. repeat split; auto.
+  intros st parts st' sep pre post (I & B & M & T) Hs Hpre Hpost. split; [exact I|]. split; [exact B|]. split; [exact M|].
   intros v s Hin. rewrite !tags_app in Hin. rewrite Hpre, Hpost in Hin. simpl in Hin. rewrite app_nil_r in Hin.
   apply tags_join in Hin as (p & Hp & Ht); auto. eapply T; eauto.
 Qed.
@@ -315,16 +315,17 @@ Proof.
   - (* tuple *)
     simpl in Hpr, Hm, Hn. destruct (thread (fun x => pr x true) ts st) as [parts st1] eqn:Et.
     inversion Hpr; subst. pose proof (thread_good ts st parts st' H Hm Hn HI Et) as HG.
-    rewrite app_assoc_reverse. apply GoodL_join; auto; try reflexivity.
+    change (TLP :: ?x) with ([TLP] ++ x).
+    apply GoodL_join; auto; try reflexivity.
     unfold tagless. rewrite tags_app. destruct (length ts =? 1)%nat; reflexivity.
   - (* app *)
     simpl in Hpr, Hm, Hn. destruct args as [|a args].
     + inversion Hpr; subst. apply Good_refl_tagless; auto. reflexivity.
     + destruct (thread (fun x => pr x true) (a :: args) st) as [parts st1] eqn:Et.
       inversion Hpr; subst. pose proof (thread_good (a :: args) st parts st' H Hm Hn HI Et) as HG.
-      change (TName d :: app_open ++ ?x) with ((TName d :: app_open) ++ x).
+      change (TName d :: TLB :: ?x) with ([TName d; TLB] ++ x).
       apply GoodL_join; auto; try reflexivity.
-      unfold tagless. rewrite tags_app. destruct (is_sole_tuple (a :: args)); reflexivity.
+      unfold tagless. rewrite tags_app. destruct a; try reflexivity; destruct args; reflexivity.
   - inversion Hpr; subst. apply Good_refl_tagless; auto. reflexivity.
   - (* bound variable *)
     simpl in Hpr, Hn. change free_bound_fresh with true in Hpr. cbv iota in Hpr.
@@ -363,12 +364,12 @@ Proof.
   - (* function type without parameters *)
     simpl in Hm, Hn. destruct ps as [|p ps]; [|discriminate].
     apply andb_prop in Hm as [Hm1 Hm2]. apply andb_prop in Hn as [Hn1 Hn2]. simpl in Hn1.
-    simpl in Hpr.
+    cbn [pr alloc_params length] in Hpr.
     destruct (thread_in (fun x => pr x true) ins fl st) as [iparts st2] eqn:Ei.
     destruct (pr t true st2) as [otoks st3] eqn:Eo. inversion Hpr; subst.
     destruct (thread_in_good ins fl st iparts st2 H Hm1 Hn1 HI Ei) as (I2 & B2 & M2 & T2).
     destruct (IHt true st2 otoks st' Hm2 Hn2 I2 Eo) as (I3 & B3 & M3 & T3).
-    repeat split; auto; try congruence.
+    split; [exact I3|]. split; [congruence|]. split; [intros v s' Hv; auto|].
     intros v s' Hin. rewrite tags_wrap in Hin. rewrite !tags_app in Hin. simpl in Hin.
     apply in_app_or in Hin as [Hin|Hin]; [|auto].
     apply M3.
@@ -387,7 +388,7 @@ Lemma alloc_params_inv : forall ps st,
   exist_names (alloc_params ps st) = exist_names st /\ free_names (alloc_params ps st) = free_names st.
 Proof.
   induction ps as [|[nm k] ps IH]; intros st HI Hn; simpl in *.
-  - repeat split; auto.
+  - split; [exact HI|]. split; [lia|]. split; reflexivity.
   - apply andb_prop in Hn as [Hn1 Hn2].
     destruct (fresh nm st) as [n' st1] eqn:Ef.
     destruct (fresh_spec nm st n' st1 HI Hn1 Ef) as (Hnin & Hiss & Hmono & Hpos & Eb & Ee & Efr).
@@ -395,7 +396,7 @@ Proof.
     assert (I1 : Inv (mkPst (counter st1) (bound_names st ++ [n']) (exist_names st) (free_names st)))
       by (apply Inv_add_bound; auto).
     destruct (IH _ I1 Hn2) as (I2 & L2 & E2 & F2). simpl in *.
-    repeat split; auto. rewrite L2, app_length. simpl. lia.
+    split; [exact I2|]. split; [rewrite L2, app_length; simpl; lia|]. split; assumption.
 Qed.
 
 Lemma tags_quant : forall ps i bn v s,
@@ -431,7 +432,7 @@ Proof.
   simpl in Hr, Hn. apply andb_prop in Hr as [Hm1 Hm2]. apply andb_prop in Hn as [Hn0 Hn2].
   apply andb_prop in Hn0 as [Hnp Hn1].
   set (ps := p0 :: ps0) in *.
-  destruct (alloc_params_inv ps init_pst Inv_init Hnp) as (I1 & L1 & _ & _). simpl in L1.
+  destruct (alloc_params_inv ps init_pst Inv_init Hnp) as (I1 & L1 & _ & _).
   cbn [pr]. fold ps.
   destruct (thread_in (fun x => pr x true) ins fl (alloc_params ps init_pst)) as [iparts st2] eqn:Ei.
   destruct (pr t true st2) as [otoks st3] eqn:Eo.
@@ -440,10 +441,10 @@ Proof.
   destruct (pr_good t true st2 otoks st3 Hm2 Hn2 I2 Eo) as (I3 & B3 & M3 & T3).
   exists st3. split; [assumption|].
   replace (length ps) with (S (length ps0)) by reflexivity. cbv iota. cbn [fst].
-  intros v s Hin. rewrite tags_wrap in Hin. rewrite !tags_app in Hin. simpl in Hin.
+  intros v s Hin. rewrite tags_wrap in Hin. rewrite !tags_app in Hin. cbn [tags app] in Hin.
   apply in_app_or in Hin as [Hin|Hin].
   - apply tags_quant in Hin as (j & Hj & -> & ->). simpl.
-    assert (Hlt : j < length (bound_names st3)) by (rewrite B3, B2, L1; simpl in Hj; unfold ps; simpl; lia).
+    assert (Hlt : j < length (bound_names st3)) by (rewrite B3, B2, L1; simpl in Hj; simpl; lia).
     apply Nat.ltb_lt in Hlt. rewrite Hlt. reflexivity.
   - apply in_app_or in Hin as [Hin|Hin]; [|auto].
     apply M3.
